@@ -81,7 +81,10 @@ pub const THOROUGH_ONLY: &[&str] = &[
 ];
 
 pub fn battery_for(quick: bool) -> Vec<Item> {
-    battery().into_iter().filter(|i| !quick || !THOROUGH_ONLY.contains(&i.label)).collect()
+    // (since the battery is answered once per distinct resolved authority the
+    // quick tier affords all of it; the list is kept for a tighter budget)
+    let _ = (quick, THOROUGH_ONLY);
+    battery()
 }
 
 pub fn battery() -> Vec<Item> {
